@@ -378,7 +378,8 @@ pub fn eval_function(
         }
         Function::Clamp => {
             let (x, min, max) = args.number_triple()?;
-            if min > max {
+            // (written so that a NaN bound is rejected too: f32::clamp panics on one)
+            if !(min <= max) {
                 return Err(SvgdxError::InvalidData(
                     "clamp(x, min, max) - `min` must be <= `max`".to_string(),
                 ));
